@@ -24,6 +24,7 @@ func run(c *common.Ctx) *common.Result {
 	checkBuiltins(c, res)
 	checkTables(c, res)
 	checkFresh(c, res)
+	checkImportAfterWrites(c, res)
 	return res
 }
 
